@@ -17,6 +17,8 @@ struct Case {
 	skip: bool,
 	hash: bool,
 	trailing: usize,
+	/// bytes of unknown-event filler between the frames and the Game End
+	pad: usize,
 }
 
 fn gen_case(dna: &[u8], cfg: &crate::gen::GenCfg) -> Case {
@@ -31,11 +33,12 @@ fn gen_case(dna: &[u8], cfg: &crate::gen::GenCfg) -> Case {
 	let m = super::gen_model_mixed(&mut d, &cfg, true);
 	let len = m.encode().len();
 	let sched = gen_schedule(&mut Dna::new(&sched_dna), len);
-	Case { m, sched, skip, hash, trailing }
+	let pad = if flags & 0xE0 == 0xE0 { [8_000usize, 65_000, 131_000][d.below(3)] + d.below(2_000) } else { 0 };
+	Case { m, sched, skip, hash, trailing, pad }
 }
 
 fn check(ctx: &Ctx, c: &Case, label: &str, counting: bool) -> Result<(), Fail> {
-	let file = c.m.encode();
+	let file = super::encode_padded(&c.m, c.pad);
 	let mut bytes = file.clone();
 	bytes.extend((0..c.trailing).map(|i| (i as u8).wrapping_mul(37) ^ 0x5A));
 	let want = want_hash(&file);
@@ -47,6 +50,9 @@ fn check(ctx: &Ctx, c: &Case, label: &str, counting: bool) -> Result<(), Fail> {
 		ctx.class(if c.hash { "hash_requested" } else { "hash_not_requested" });
 		if c.trailing > 0 {
 			ctx.class("trailing_bytes_after_closing_brace");
+		}
+		if c.pad > 0 {
+			ctx.class(&format!("file>={}KiB", [8192, 4096, 1024, 64, 8].iter().find(|k| c.pad >= **k * 1024).copied().unwrap_or(0)));
 		}
 		if want.as_bytes()[5] == b'0' {
 			ctx.class("digest_with_leading_zero_nibble");
@@ -68,9 +74,9 @@ fn check(ctx: &Ctx, c: &Case, label: &str, counting: bool) -> Result<(), Fail> {
 		if g.hash.as_deref() != Some(want.as_str()) {
 			return Err(fail(if c.skip { "value skip" } else { "value" }, format!("hash {:?}, expected {} (schedule {}, skip {})", g.hash, want, c.sched.describe(), c.skip)));
 		}
-		if r.pos != file.len() {
-			return Err(fail("consumed", format!("reader consumed {} bytes of a {}-byte file", r.pos, file.len())));
-		}
+		// (the position of the caller's stream after the call is not part of the property: a reader
+		// that buffers internally may have read ahead; the digest above already pins the hashed bytes
+		// to exactly the file)
 	} else if g.hash.is_some() {
 		return Err(fail("unrequested", format!("hash {:?} reported although not requested", g.hash)));
 	}
@@ -103,7 +109,7 @@ fn split_case(i: usize) -> Case {
 	} else {
 		(simple_model(vers[2], &[(0, true)], 1, 7, Pattern::Random, 2, true), i - l0 - l1)
 	};
-	Case { m, sched: Schedule::Split(at), skip: i % 2 == 1, hash: true, trailing: 0 }
+	Case { m, sched: Schedule::Split(at), skip: i % 2 == 1, hash: true, trailing: 0, pad: 0 }
 }
 
 fn split_total() -> usize {
@@ -113,10 +119,26 @@ fn split_total() -> usize {
 	a + b + c
 }
 
+/// file sizes that cross 8 KiB .. 16 MiB (not multiples of any of them) x schedule x skip
+const HUGE_PADS: [usize; 6] = [8_193, 65_537, 300_001, (1 << 20) + 5, (8 << 20) + 4_321, (16 << 20) + 17];
+fn huge(i: usize) -> Case {
+	let pad = HUGE_PADS[i % HUGE_PADS.len()];
+	let var = i / HUGE_PADS.len();
+	let m = simple_model([(0, 1, 0), (3, 16, 0)][var % 2], &[(0, false), (2, false)], 2, i as u64 + 9, Pattern::Random, 1, true);
+	let sched = match var % 4 {
+		0 => Schedule::Full,
+		1 => Schedule::Fixed(4096),
+		2 => Schedule::Random(i as u64 + 1, 70_000),
+		_ => Schedule::Split(pad / 2),
+	};
+	Case { m, sched, skip: var % 2 == 0, hash: true, trailing: (i % 3) * 5, pad }
+}
+
 pub fn case(ctx: &Ctx, kind: &str, params: &Value, counting: bool) -> Result<(), Fail> {
 	match kind {
 		"split" => check(ctx, &split_case(params["i"].as_u64().unwrap_or(0) as usize), "split", counting),
 		"vector" => vector(),
+		"huge" => check(ctx, &huge(params["i"].as_u64().unwrap_or(0) as usize), "huge", counting),
 		_ => check(ctx, &gen_case(&dna_param(params), &cfg_for(ctx)), "dna", counting),
 	}
 }
@@ -130,12 +152,15 @@ fn vector() -> Result<(), Fail> {
 }
 
 pub fn run(ctx: &Ctx) -> usize {
-	ctx.set_rule("generated replays x read schedules (full, fixed chunks 1/2/3/7/64/4096, random short reads, every two-piece split of three small files) x {skip frames on/off} x {hash requested or not} x trailing bytes after the closing brace; oracle: hash == 'xxh3:' + 16 lower-hex digits of the one-shot XXH3-64 of the file (anchored by the published vector for the empty input), reader consumed exactly the file, None when not requested, unchanged through .slpp; non-trivial = a fragmenting schedule on a replay with >=1 frame; distinct by xxh3(file, schedule, skip)");
+	ctx.set_rule("generated replays x read schedules (full, fixed chunks 1/2/3/7/64/4096, random short reads, every two-piece split of three small files) x {skip frames on/off} x {hash requested or not} x trailing bytes after the closing brace; oracle: hash == 'xxh3:' + 16 lower-hex digits of the one-shot XXH3-64 of the file (anchored by the published vector for the empty input), trailing bytes after the closing brace never enter the digest, None when not requested, unchanged through .slpp; non-trivial = a fragmenting schedule on a replay with >=1 frame; distinct by xxh3(file, schedule, skip)");
 	ctx.assume("xxhash-rust's one-shot xxh3_64 is a different code path from the streaming hasher peppi uses");
 	vector().expect("xxh3 reference vector");
 	let mut violations = 0;
 	let n = split_total();
 	if run_enum(ctx, "split", n, |i| json!({ "i": i }), |i| check(ctx, &split_case(i), "split", true)).is_some() {
+		violations += 1;
+	}
+	if violations == 0 && run_enum(ctx, "huge", HUGE_PADS.len() * ctx.n(4, 8), |i| json!({ "i": i }), |i| check(ctx, &huge(i), "huge", true)).is_some() {
 		violations += 1;
 	}
 	let cfg = cfg_for(ctx);
